@@ -83,7 +83,8 @@ impl<'ast> Visit<'ast> for Unsafe {
             syn::Type::Path(p) => {
                 if let Some(seg) = p.path.segments.last() {
                     let name = seg.ident.to_string();
-                    if name == "Result" && !p.path.to_token_stream().to_string().contains("CResult") {
+                    // (ResU / ResIo are the harness' own aliases of std's Result)
+                    if (name == "Result" || name == "ResU" || name == "ResIo") && !p.path.to_token_stream().to_string().contains("CResult") {
                         self.0.push(format!("Rust Result `{}`", t.to_token_stream()));
                     }
                     if name == "Option" {
@@ -303,6 +304,22 @@ fn main() {
                     Err(e) => serde_json::json!({"error": e}),
                 };
                 out.insert(d.id.clone(), v);
+                // the same definition through the `#[cglue_trait_ext]` route (an external trait's
+                // interface re-declared): it must give the very same vtable
+                if d.kind == "trait" {
+                    let ext = std::panic::catch_unwind(|| {
+                        let ts = TokenStream::from_str(&d.src).ok()?;
+                        let mut tr: syn::ItemTrait = syn::parse2(ts).ok()?;
+                        tr.attrs.retain(|a| !a.path.is_ident("cglue_trait"));
+                        let ext_ident = quote::format_ident!("{}Ext", tr.ident);
+                        Some(cglue_gen::traits::gen_trait(tr, Some(&ext_ident)))
+                    });
+                    let v = match ext {
+                        Ok(Some(ts)) => serde_json::to_value(struct_list(&ts)).unwrap(),
+                        _ => serde_json::json!({"error": "ext expansion failed"}),
+                    };
+                    out.insert(format!("{}#ext", d.id), v);
+                }
             }
             std::fs::write(&a[3], serde_json::to_string(&out).unwrap()).unwrap();
         }
